@@ -2784,8 +2784,10 @@ impl<'a> Visitor<'a, '_, Error> for JSONValidator<'a> {
         Ok(())
       }
       Value::Number(n) => {
-        if is_ident_uint_data_type(self.state.cddl, ident) && n.is_u64() {
-          return Ok(());
+        if is_ident_uint_data_type(self.state.cddl, ident) {
+          if n.is_u64() {
+            return Ok(());
+          }
         } else if is_ident_nint_data_type(self.state.cddl, ident) {
           if let Some(n) = n.as_i64() {
             if n.is_negative() {
@@ -2813,9 +2815,9 @@ impl<'a> Visitor<'a, '_, Error> for JSONValidator<'a> {
           }
         } else if let Some(kind) = ident_numeric_kind(self.state.cddl, ident) {
           let matches_kind = match kind {
-            NumericKind::Int => n.is_i64(),
+            NumericKind::Int => n.is_i64() || n.is_u64(),
             NumericKind::Float => n.is_f64(),
-            NumericKind::Both => n.is_i64() || n.is_f64(),
+            NumericKind::Both => true,
           };
           if matches_kind {
             return Ok(());
